@@ -133,6 +133,16 @@ def handle (payload impl : String) : String × String :=
               | [] => false
               | (k, _) :: r => r.any (fun (k', _) => k.beq k') || dupKey r
             if states.any (fun s => dupKey s.st) then "FAIL C07-storage-key-listed-twice: one key expression has two storage cells on one path" else
+            -- C17: a jump the reference EVM refuses (its target is not a valid destination) on some
+            -- path must be listed at that offset by a strict run (the programs of this family are
+            -- loop-free, so the tool explores every path: cf. the "not explored" check below)
+            let refBad := ((EVM.paths {} bytes).filterMap (fun (h, s) =>
+              if h == .badJump then s.visited.getLast? else none)).eraseDups
+            let listed := match VMD.parseDump impl with
+              | some d => d.errs.map (fun (e : Nat × String) => e.1)
+              | none => []
+            let unsurfaced := if cfg.permissive then [] else refBad.filter (fun i => !(listed.contains i))
+            if !unsurfaced.isEmpty then s!"FAIL C17-bad-jump-not-surfaced:offset {unsurfaced.headD 0}" else
             match quirkSets.find? (fun (_, q) => (diffsUnder q bytes states).isEmpty) with
             | some ([], _) => "ok"
             | some (names, _) =>
